@@ -606,3 +606,44 @@ package whispertool
 //@   invariant values: forall k :: 0 <= k && k < i ==> bits(pts[k].Value) == bits(ts.values[k])
 //@   invariant times: wellShapedTS(ts) ==> forall k :: 0 <= k && k < i ==> pts[k].Time == ts.fromTime + k * ts.step
 //@   use mul_mono(i, len(ts.values), ts.step) when wellShapedTS(ts)
+
+// ---------------------------------------------------------------- write path (C01, C02, C03)
+
+//@ func (*Whisper).getPointOffset
+//@   props C01 C02 C03
+//@   requires w != nil && w.fileBuf != nil && a != nil && validArchive(*a) && fits32(*a)
+//@   ensures kind: a.offset + 4 <= fsize(w.fileBuf) ==> result1 == nil || isio(result1)
+//@   ensures range: result1 == nil ==> a.offset <= result0 && result0 + 12 <= a.offset + 12 * a.numberOfPoints
+//@   ensures slot_aligned: result1 == nil ==> (result0 - a.offset) fmod 12 == 0
+//@   ensures never: result1 == nil && slotTime(frow(w.fileBuf), a.offset) == 0 ==> result0 == a.offset
+//@   ensures idx: result1 == nil && slotTime(frow(w.fileBuf), a.offset) != 0
+//@                 && -2147483648 < start - slotTime(frow(w.fileBuf), a.offset) && start - slotTime(frow(w.fileBuf), a.offset) <= 2147483647
+//@                 && (start - slotTime(frow(w.fileBuf), a.offset)) fmod a.secondsPerPoint == 0
+//@                 ==> result0 == a.offset + 12 * idxOf(*a, slotTime(frow(w.fileBuf), a.offset), start)
+
+//@ spec sumf(r floats, off int, n int) rec fp64 = ite(n <= 0, fpconst(0.0), sumf(r, off, n - 1) + f64frombits(r[off + n - 1]))
+//@ spec maxf(r floats, off int, n int) rec int = ite(n <= 0, r[off], ite(f64frombits(r[off + n - 1]) > f64frombits(maxf(r, off, n - 1)), r[off + n - 1], maxf(r, off, n - 1)))
+//@ spec minf(r floats, off int, n int) rec int = ite(n <= 0, r[off], ite(f64frombits(r[off + n - 1]) < f64frombits(minf(r, off, n - 1)), r[off + n - 1], minf(r, off, n - 1)))
+
+//@ func sum
+//@   props C02
+//@   ensures fold: fp(result) == sumf(row(values), values.off, len(values))
+//@ loop sum#0
+//@   invariant bounds: 0 <= iter && iter <= len(values)
+//@   invariant fold: fp(result) == sumf(row(values), values.off, iter)
+
+//@ func aggregate
+//@   props C02
+//@   requires len(knownValues) > 0 && 1 <= method && method <= 6
+//@   ensures average: method == 1 ==> fp(result) == sumf(row(knownValues), knownValues.off, len(knownValues)) / tofp64(len(knownValues))
+//@   ensures sum: method == 2 ==> fp(result) == sumf(row(knownValues), knownValues.off, len(knownValues))
+//@   ensures last: method == 3 ==> bits(result) == bits(knownValues[len(knownValues) - 1])
+//@   ensures max: method == 4 ==> bits(result) == maxf(row(knownValues), knownValues.off, len(knownValues))
+//@   ensures min: method == 5 ==> bits(result) == minf(row(knownValues), knownValues.off, len(knownValues))
+//@   ensures first: method == 6 ==> bits(result) == bits(knownValues[0])
+//@ loop aggregate#0
+//@   invariant bounds: 0 <= iter && iter <= len(knownValues)
+//@   invariant fold: bits(max) == maxf(row(knownValues), knownValues.off, iter)
+//@ loop aggregate#1
+//@   invariant bounds: 0 <= iter && iter <= len(knownValues)
+//@   invariant fold: bits(min) == minf(row(knownValues), knownValues.off, iter)
